@@ -30,7 +30,10 @@ def _viol(kind, detail, cfg_name, hist, follow=None):
 
 
 def _meta(rec):
-    return [ub.dict() for ub in rec.ih5_meta]
+    import json
+
+    # via JSON: a live record holds UUID objects in ub_exts, a loaded one strings
+    return [json.loads(ub.json()) for ub in rec.ih5_meta]
 
 
 def check_merge(task):
@@ -82,14 +85,17 @@ def check_merge(task):
             return V("source-manifest-changed", "manifest of the still-open source changed by merge")
         # (a) merged tree = overlay view
         nck += 1
-        m = cls(Path(md) / "merged", "r")
+        try:
+            m = cls(Path(md) / "merged", "r")
+        except Exception as e:
+            return V("merged-does-not-open", f"the merged container cannot be opened: {type(e).__name__}: {e}")
         try:
             if len(m.ih5_files) != 1 or str(m.ih5_files[0]) != str(mfile):
                 return V("merged-not-single", f"merged record has files {m.ih5_files}, merge_files returned {mfile}")
             if ih5lib.dump(m) != pre_view:
                 return V("merged-tree", "tree of the merged container differs from the overlay view of the source")
             # (b) identifies itself as the same record at the same patch state
-            mm = m.ih5_meta[0].dict()
+            mm = _meta(m)[0]
             last, base = pre_meta[-1], pre_meta[0]
             for fld in ("record_uuid", "patch_uuid", "patch_index"):
                 if mm[fld] != last[fld]:
@@ -132,6 +138,34 @@ def check_merge(task):
                 env.rmtree(sd)
         rec.close()
         rec = None
+        # the same again for a source that was reopened with its files given out of patch order
+        nck += 1
+        files_rev = [Path(p) for p in reversed(pre_files)]
+        r2 = cls(files_rev, "r")
+        try:
+            try:
+                mfile2 = r2.merge_files(Path(md) / "merged2")
+            except Exception as e:
+                return V("merge-failed", f"merge_files on a source reopened from a reversed file list raised {type(e).__name__}: {e}")
+            if _meta(r2) != pre_meta or ih5lib.dump(r2) != pre_view:
+                return V("source-meta-changed", "source reopened from a reversed file list changed by merge")
+        finally:
+            r2.close()
+        try:
+            m2 = cls(Path(md) / "merged2", "r")
+        except Exception as e:
+            return V("merged-does-not-open", f"the container merged from a source reopened from a reversed file list cannot be opened: {type(e).__name__}: {e}")
+        try:
+            if ih5lib.dump(m2) != pre_view:
+                return V("merged-tree", "tree of the container merged from a reordered source differs from the overlay view")
+            mm2 = _meta(m2)[0]
+            for fld in ("record_uuid", "patch_uuid", "patch_index"):
+                if mm2[fld] != pre_meta[-1][fld]:
+                    return V("merged-userblock", f"merged user block field {fld} differs from the newest source container (source opened from a reversed file list)")
+            if mm2["prev_patch"] != pre_meta[0]["prev_patch"]:
+                return V("merged-userblock", "merged user block prev_patch differs from the base's (source opened from a reversed file list)")
+        finally:
+            m2.close()
         # (c) chain continuation
         ops = [o for o in cfg["ops"] if o[0] != "B"]
         follows = [[o] for o in ops]
